@@ -93,6 +93,8 @@ def check(run: Run) -> None:
     run.rule("C12.R3", "the emitted piece sequence (kind, optional ' Pn', ' ', body, NL) is derivable from the grammar's item rule")
     run.rule("C12.R4", "single renderer: query results and moved notes obtain item text only from Note.to_string")
     run.rule("C12.R5", "a refreshed .zoq page ends its last item with a newline")
+    run.rule("C12.R7", "the header a refresh keeps is the LEADING run of header lines (takewhile / break at the first other line), never a filter over the whole old page")
+    run.rule("C12.R8", "every ZID the allocator writes into a page is one ZID token for the file lexer (shared with C05.R2/C07)")
     run.rule("C12.R6", "the headline/bullet property scan skips an optional modify date and an optional ZID before looking for 'key::'")
     ts = run_file_typestate(run.repo, model, walk=False)
     g = ts.grammar
@@ -186,7 +188,55 @@ def check(run: Run) -> None:
             run.check("C12.R5", "the written .zoq page ends with a newline", ok, "refresh_zoq_file_with_session", "page text ends with the query results (no trailing newline)",
                       f"the page text is `...{render(sh[-2:])}`: the results are stripped and nothing follows, so the last item lacks the NL the grammar's item rule requires "
                       "and the refreshed page does not compile", file=fr.file, node=w)
+    # ---- R7 / R8
+    zoq_header_is_leading_run(run, model, fr)
+    from .c07 import allocated_zids_lex_as_zids
+
+    allocated_zids_lex_as_zids(run, model, "C12.R8")
     # ---- R6
     bullet_scan(run, model, ts)
     run.units = dict(functions=[F_TOSTR, F_REFRESH, f"{COMPILER}.enterTodo_prefix", f"{COMPILER}._add_note"], kinds=len(members))
     run.assumptions += ["value-level round trip of arbitrary bodies is not decided (e.g. a done todo whose body starts with a priority-shaped word)"]
+
+
+def zoq_header_is_leading_run(run: Run, model: PyModel, fr) -> None:
+    from ..util import parent_map
+
+    pm = parent_map(fr.node)
+    uses = [n for n in ast.walk(fr.node) if isinstance(n, ast.Name) and n.id == "_is_zoq_header_line"]
+    run.floor("uses of _is_zoq_header_line in the refresh", len(uses), 1)
+    for u in uses:
+        # climb: Name -> (partial(...)) -> consumer
+        node = u
+        par = pm.get(node)
+        if isinstance(par, ast.Call) and par.func is node:
+            node, par = par, pm.get(par)  # direct call pred(marker, line)
+        if isinstance(par, ast.Call) and ast.unparse(par.func).split(".")[-1] == "partial":
+            node, par = par, pm.get(par)
+        while isinstance(par, (ast.UnaryOp, ast.BoolOp)):
+            node, par = par, pm.get(par)
+        verdict = None
+        if isinstance(par, ast.Call) and ast.unparse(par.func).split(".")[-1] == "takewhile":
+            verdict = True
+        elif isinstance(par, ast.Call) and ast.unparse(par.func).split(".")[-1] in ("filter", "filterfalse", "dropwhile"):
+            verdict = False
+        elif isinstance(par, ast.comprehension):
+            verdict = False
+        elif isinstance(par, ast.If):
+            loop = par
+            while loop is not None and not isinstance(loop, (ast.For, ast.While)):
+                loop = pm.get(loop)
+            if loop is not None:
+                verdict = any(isinstance(x, (ast.Break, ast.Return)) for x in ast.walk(par))
+        elif isinstance(par, ast.Assign):
+            # partial bound to a name: look at where the name is consumed
+            tgt = par.targets[0].id if isinstance(par.targets[0], ast.Name) else None
+            cons = [pm.get(n) for n in ast.walk(fr.node) if isinstance(n, ast.Name) and n.id == tgt and isinstance(n.ctx, ast.Load)]
+            kinds = {ast.unparse(c.func).split(".")[-1] if isinstance(c, ast.Call) else type(c).__name__ for c in cons}
+            verdict = True if kinds == {"takewhile"} else (False if kinds & {"filter", "comprehension"} else None)
+        if verdict is None:
+            run.undecided("C12.R7", "refresh_zoq_file_with_session", f"unrecognised use of the header-line predicate: `{ast.unparse(par)[:80] if par is not None else '?'}`")
+        else:
+            run.check("C12.R7", "the kept header is the leading run of header lines", verdict, "refresh_zoq_file_with_session", par,
+                      f"the old header is selected with `{ast.unparse(par)[:90]}`, a filter over every line of the old page: '#' lines further down (section headers of the previous "
+                      "results) are kept as header too, so the header grows on every refresh and the page no longer is header + fresh results", file=fr.file, node=par)
